@@ -36,6 +36,16 @@ CLAIMED['C07'] = dict(
     note='Trusted: reference rules in specs/c07.py (validated on Ok/Err witnesses against the real checker each run), M2S, z3, derive(PartialEq) of core types as uninterpreted equalities.',
     design='DESIGN.md section 3 / C07')
 
+CLAIMED['C17'] = dict(
+    technique='symbolic execution of rustc MIR (M2S) over a lazily instantiated AST; reference positions derived from the AST type declarations; z3 decides reachability of an execution that misses a position',
+    text='For every access path from Document to a PackagePath/PackageName (derived mechanically from the struct/enum declarations of '
+         'wac-parser/src/ast on every run, recursive types repeated up to D times): on every execution of PackageVisitor::visit over a document '
+         'having a reference at that position (as first element, and as second element behind a same-shaped sibling, for every vector on the '
+         'path) the callback receives that package; `new <own package>` is rejected at every position; the packages() callback skips the own '
+         'package and records every other one. Templates per position are replayed through Document::parse + wac_resolver::packages.',
+    note='Trusted: M2S, z3, the callback returns true; expression nesting deeper than 3 is outside the claim (cut paths are counted). The second half of the property (resolution with exactly the discovered set) is outside.',
+    design='DESIGN.md section 3 / C17')
+
 NOT_APPLICABLE = {
  'C01': 'validity is defined by an external 60 kLoC validator over whole-pipeline output; neither it nor the encoder can be executed symbolically here (DESIGN.md section 4)',
  'C05': 'needs wit-component as reference encoder and the validator subtype relation as comparison; out of reach of symbolic execution (DESIGN.md section 4)',
